@@ -20,7 +20,7 @@ MANIFEST_ENTRY = {
     "text": "Proved (all sizes): the operator table the parser is built from is exactly the Annex B.3.1 table; the expression-parser model "
             "(peg precedence climbing over that table, unary operators, parentheses, trivia) returns erase(s) for every well-formed "
             "spelled expression s; the statement-parser model (PEG transcription of B.3.2 and of function calls with positional / "
-            "named / output parameters, signed constants, BOOL#TRUE, structured and array variables a.b[i, j].c: assignment, function-block call, IF / ELSIF / ELSE, FOR [BY], WHILE, REPEAT, "
+            "named / output parameters, signed constants, BOOL#TRUE, structured and array variables a.b[i, j].c: assignment, function-block call, IF / ELSIF / ELSE, CASE (integer, subrange and name selectors), FOR [BY], WHILE, REPEAT, "
             "EXIT, RETURN, nested to any depth) returns exactly the denoted statement list for every well-formed spelling, end to end "
             "through the FUNCTION_BLOCK wrapper with the fuel the entry point supplies (never exhausted). The model is compared with "
             "parse_program three ways (meaning / parser / model) on generated bodies and on token-level mutants (accept / reject and "
